@@ -102,9 +102,9 @@ class StringContainsToConcat:
         if len(node) != 3:
             return []
         var = node[1]
-        if not var.is_leaf() or is_piped_symbol(var):
-            # the text of a term (or of a quoted symbol) can not be part of
-            # a new symbol
+        if not var.is_leaf() or is_piped_symbol(var) or is_string_const(var):
+            # the text of a term (or of a quoted symbol or of a string
+            # literal) can not be part of a new symbol
             return []
         k1 = f'{var}_prefix'
         k2 = f'{var}_suffix'
